@@ -17,7 +17,7 @@ pub fn property() -> Property {
         parts: vec![
             Part {
                 name: "sweep",
-                quick: 20_000,
+                quick: 60_000,
                 thorough: 2_000_000,
                 single_shard: false, supplementary: false,
                 run: |cfg| run_part(cfg, gen::raw_pos(80), |r| PosCase { fen: gen::position(r, ClockDomain::Unmake).fen() }, check_sweep),
@@ -25,7 +25,7 @@ pub fn property() -> Property {
             },
             Part {
                 name: "lines",
-                quick: 4_000,
+                quick: 12_000,
                 thorough: 200_000,
                 single_shard: false, supplementary: false,
                 run: |cfg| {
